@@ -42,6 +42,9 @@ func checkC12(c *Ctx) {
 		c.Undecided("C12-R1", "package tcell", "-", "not loaded")
 		return
 	}
+	c.Rule("C12-R13", "the mouse parsers are tried whenever the terminal has a mouse entry, whatever the application's current mouse flags: a report already on its way when the mode is switched off still decodes as a report")
+	c.Expect("C12-R13", 2)
+	checkCollectGates(c, p, "C12-R13", func(n string) bool { return n == "parseXtermMouse" || n == "parseSgrMouse" })
 	bm := p.Fn("tcell:(*tScreen).buildMouseEvent")
 	sgr := p.Fn("tcell:(*tScreen).parseSgrMouse")
 	x11 := p.Fn("tcell:(*tScreen).parseXtermMouse")
